@@ -171,6 +171,10 @@ pub struct Cfg {
     /// (source call index, length): that many consecutive reads starting there return Interrupted
     #[serde(default)]
     pub intr_burst: Option<(usize, usize)>,
+    /// the caller's reaction to a size-limit refusal: on the first `BufferLimit` returned by a read
+    /// operation install this policy (`set_policy`) and repeat the operation once (C03 only)
+    #[serde(default)]
+    pub lift: Option<PolicySpec>,
 }
 
 impl Cfg {
@@ -182,6 +186,7 @@ impl Cfg {
             cuts: vec![],
             faults: vec![],
             intr_burst: None,
+            lift: None,
         }
     }
 }
